@@ -143,5 +143,8 @@ def DP : Prims where
   other := fun _ _ _ w => (.error "unsupported", w)
   unary := fun _ _ w => (.error "unsupported", w)
   getIndex := fun _ _ w => (.error "unsupported", w)
+  put3 := fun _ _ _ w => (.error "unsupported", w)
+  signal := fun _ _ w => (.error "unsupported", w)
+  raise := fun _ => "raised"
 
 end JanetModel.Spec
